@@ -32,6 +32,8 @@ func main() {
 		cmdPlanTraceCheck(a)
 	case "cli-replay":
 		cmdCliReplay(a)
+	case "reader-replay":
+		cmdReaderReplay(a)
 	case "cli-io-replay":
 		cmdCliIoReplay(a)
 	case "cli-io-trace-check":
